@@ -48,6 +48,7 @@ type rec struct {
 	returned bool
 	// snapshot at the instant the publisher's call returned (Wait/Sync variants)
 	pendingAtReturn int
+	nEvents         int
 	viol            *schk.Fail
 }
 
@@ -97,6 +98,7 @@ func (r *rec) publish(ps *chans.PubSub[int], variant string, evs []int) {
 //go:norace
 func (r *rec) publisher() {
 	evs := events(r.c.variant)
+	r.nEvents = len(evs)
 	r.publish(r.ps, r.c.variant, evs)
 	r.returned = true
 	// the caller owns its slice again as soon as the call returns: reuse it (what was published
@@ -106,7 +108,13 @@ func (r *rec) publisher() {
 	}
 	// completion before return (Wait and Sync variants): every sender goroutine this call
 	// started has finished its hand-off or its timeout callback
-	r.pendingAtReturn = vrt.LiveGo()
+	// has finished: its send completed (SendsDone counts completed channel sends, whatever goroutines the
+	// implementation uses and whether or not they still exist) or OnPubTimeout was called for it
+	done := len(r.timeouts)
+	for _, sub := range r.subs {
+		done += vrt.SendsDone[<-chan int, int](sub)
+	}
+	r.pendingAtReturn = r.nEvents*len(r.subs) - done
 }
 
 //go:norace
